@@ -1,4 +1,5 @@
 import IGVerif.Props.Ties
+import IGVerif.Proofs.Merge
 /-! C03 — component pair combinations expand into complete, correctly linked statements. -/
 namespace IGVerif.C03
 open IGVerif
@@ -39,5 +40,17 @@ theorem nested_without_pairs (h : Hdr) (ips : List Part) (hp : pairsIn (denoteS 
 theorem pairsIn_first (outside : PStmt) (t : GTree) (ps : List Part) :
     pairsIn outside (.pairs t :: ps) = some (denoteG outside t) := by
   simp [pairsIn, denoteG]
+
+/-- **Each expanded statement contains that group's components plus every component written
+    outside the braces, and nothing else**: field by field the merged statement holds the
+    group's value, the outside value, or both joined by the implicit conjunction (group
+    first); a field present in neither is absent. The other groups do not occur in the
+    statement at all (`group_statement`: it is a function of this group and the outside). -/
+theorem expanded_statement_fields (g outside : PStmt) (hd : outside.Pairwise (fun a b => a.1 ≠ b.1)) (i : Nat) (hi : i < 27) :
+    fieldAt (mergeStmt g outside) i =
+      match fieldAt outside i with
+      | some o => some (match fieldAt g i with | some q => combineN opBAND q o | none => o)
+      | none => fieldAt g i :=
+  fieldAt_mergeStmt g outside hd i hi
 
 end IGVerif.C03
